@@ -292,6 +292,17 @@ def _bound_read_callables(
     return wrapped_read_all, wrapped_read_some
 
 
+def _commit_parents(commit: Commit) -> list[ObjectID]:
+    """Default ``get_parents``: the parents recorded in the commit itself.
+
+    Functions that consult the commit graph only do so when their
+    ``get_parents`` argument is this default. A caller-supplied function
+    (grafts, shallow boundaries) is the authority on parents and must not be
+    bypassed by optional acceleration data.
+    """
+    return commit.parents
+
+
 def find_shallow(
     store: ObjectContainer, heads: Iterable[ObjectID], depth: int
 ) -> tuple[set[ObjectID], set[ObjectID]]:
@@ -362,7 +373,7 @@ def find_shallow(
 def get_depth(
     store: ObjectContainer,
     head: ObjectID,
-    get_parents: Callable[..., list[ObjectID]] = lambda commit: commit.parents,
+    get_parents: Callable[..., list[ObjectID]] = _commit_parents,
     max_depth: int | None = None,
 ) -> int:
     """Return the current available depth for the given head.
@@ -380,7 +391,9 @@ def get_depth(
         return 0
     current_depth = 1
     queue = deque([(head, current_depth)])
-    commit_graph = store.get_commit_graph()
+    commit_graph = (
+        store.get_commit_graph() if get_parents is _commit_parents else None
+    )
 
     # Without deduplication a commit reachable along several paths is expanded
     # once per path, so a merge-heavy history is walked in exponential time.
@@ -681,7 +694,7 @@ class BaseObjectStore:
         shallow: Set[ObjectID] | None = None,
         progress: Callable[..., None] | None = None,
         get_tagged: Callable[[], dict[ObjectID, ObjectID]] | None = None,
-        get_parents: Callable[..., list[ObjectID]] = lambda commit: commit.parents,
+        get_parents: Callable[..., list[ObjectID]] = _commit_parents,
     ) -> Iterator[tuple[ObjectID, PackHint | None]]:
         """Find the missing objects required for a set of revisions.
 
@@ -774,7 +787,7 @@ class BaseObjectStore:
     def _get_depth(
         self,
         head: ObjectID,
-        get_parents: Callable[..., list[ObjectID]] = lambda commit: commit.parents,
+        get_parents: Callable[..., list[ObjectID]] = _commit_parents,
         max_depth: int | None = None,
     ) -> int:
         """Return the current available depth for the given head.
@@ -3159,7 +3172,7 @@ class MissingObjectFinder:
         shallow: Set[ObjectID] | None = None,
         progress: Callable[[bytes], None] | None = None,
         get_tagged: Callable[[], dict[ObjectID, ObjectID]] | None = None,
-        get_parents: Callable[[Commit], list[ObjectID]] = lambda commit: commit.parents,
+        get_parents: Callable[[Commit], list[ObjectID]] = _commit_parents,
     ) -> None:
         """Initialize a MissingObjectFinder.
 
@@ -3788,7 +3801,7 @@ def _collect_ancestors(
     heads: Iterable[ObjectID],
     common: frozenset[ObjectID] = frozenset(),
     shallow: frozenset[ObjectID] = frozenset(),
-    get_parents: Callable[[Commit], list[ObjectID]] = lambda commit: commit.parents,
+    get_parents: Callable[[Commit], list[ObjectID]] = _commit_parents,
 ) -> tuple[set[ObjectID], set[ObjectID]]:
     """Collect all ancestors of heads up to (excluding) those in common.
 
@@ -3809,8 +3822,12 @@ def _collect_ancestors(
     queue: list[ObjectID] = []
     queue.extend(heads)
 
-    # Try to use commit graph if available
-    commit_graph = store.get_commit_graph()
+    # Try to use commit graph if available, but only to replace the default
+    # get_parents: a caller-supplied one knows about grafts or shallow
+    # boundaries that the commit graph does not.
+    commit_graph = (
+        store.get_commit_graph() if get_parents is _commit_parents else None
+    )
 
     while queue:
         e = queue.pop(0)
